@@ -90,6 +90,7 @@ struct EncLayout {
     bool events = false;
     bool byte_params = false, three_d_params = false, long_desc = false;
     bool reserved_nonzero = false;    // non-zero bytes in the reserved header words (readers must carry or ignore them)
+    int force_group_desc = -1;        // >= 0: every group gets a description of exactly that many characters
     uint64_t seed = 1;
 };
 struct EncContent {
